@@ -18,6 +18,9 @@ class Ctx:
 
     def __init__(self, repo: Repo | None = None) -> None:
         self.repo = repo or Repo()
+        from sa import twins as _twins
+
+        _twins.register_helpers(self.repo)
         self.folder = Folder(self.repo)
         self._cache: Dict[str, Any] = {}
 
